@@ -12,6 +12,7 @@ pub mod replicas;
 pub mod robust;
 pub mod scen;
 pub mod storage;
+pub mod tables;
 pub mod wellformed;
 pub mod world;
 
